@@ -15,5 +15,5 @@ func NewAnchor(name string) *Anchor {
 }
 
 func (c *Anchor) WriteHTMLTo(w io.Writer) (int64, error) {
-	return writeSprintf(w, `<a name="%s"/>`, c.name)
+	return writeSprintf(w, `<a name="%s"/>`, escapeAttribute(c.name))
 }
